@@ -1187,13 +1187,15 @@ def join(
         right >>= rename({col: col.name + user_suffix for col in right})
 
     elif right_names & left_names:
+        # Find the smallest counter for which no suffixed name collides with a column of
+        # the left table or with a column of the right table that keeps its name. The
+        # same counter must work for all names.
         cnt = 0
-        for name in right_names:
-            suffixed = name + suffix + (f"_{cnt}" if cnt > 0 else "")
-            # must not collide with a column of the right table that keeps its name either
-            while suffixed in left_names or suffixed in right_names:
-                cnt += 1
-                suffixed = name + suffix + f"_{cnt}"
+        while any(
+            (suffixed := name + suffix + (f"_{cnt}" if cnt > 0 else "")) in left_names or suffixed in right_names
+            for name in right_names
+        ):
+            cnt += 1
 
         if cnt > 0:
             suffix += f"_{cnt}"
